@@ -160,7 +160,8 @@ Definition convert_schema (ts : list ctok) : option decl :=
 (* ---- the argument loop of New: (option name, value if an '=' is present) ---- *)
 Inductive optval :=
 | OVCols (ts : list ctok)       (* columns='...' *)
-| OVInt (ok : bool)             (* a value for a numeric option: well-formed 32-bit integer or not *)
+| OVInt (ok : bool)             (* a value for a numeric option: a 32-bit integer in the option's range
+                                   (not negative; entries_per_node not 1) or not *)
 | OVText                        (* any text value *)
 | OVNone.                       (* no '=' at all *)
 
@@ -185,7 +186,10 @@ Fixpoint arg_loop (args : list (Z * optval)) (seen : list Z) (d : option decl) (
           | OVInt true => arg_loop rest seen' d ro
           | _ => ArgErr
           end
-        else if k =? 3 then arg_loop rest seen' d true
+        else if k =? 3 then
+          (* readonly is a flag: a value is a malformed argument (fix in /repo; before it any value,
+             readonly=no included, meant read-only) *)
+          match v with OVNone => arg_loop rest seen' d true | _ => ArgErr end
         else if (k =? 4) || (k =? 5) || (k =? 6) then
           match v with OVNone => ArgErr | _ => arg_loop rest seen' d ro end   (* missing value (fix 474699e) *)
         else ArgErr                                                      (* unknown option *)
